@@ -22,6 +22,24 @@ Session dimension: sequences of two or three operations in ONE process (`pkg._ru
 `os.chdir` between them (success then failure, failure then failure, failure then success, …; the same or a fresh `API` object; the
 failing later steps rotate through every class of invocation point): every step is judged like an operation run alone — model and
 specification know nothing of the process' past (`session_restores_cwd`, `session_fault_reported`).
+Environment dimension: the pipelines of every target also run with optional helper programs installed next to the named tools
+(`pkg.helper_candidates`: every program name the packaging code mentions in a `which` / `execute` / `os.system` / `subprocess` call —
+read off its syntax tree — every name a run looked up with `shutil.which`, and the common formatters, caches, wrappers: xcpretty, ccache,
+sccache, tee, time, nice, xcrun, …; all of them, a random half, thorough: each looked-up name alone), each with every invocation point
+failing both ways; the helpers stay when the named tools disappear. The model does not know the helpers: its verdict is the named tool's
+(`named_status_decides`, `executeSh_simple`; `executeSh_pipe_hides_failure` is the counterexample). Every stub records the status it exits
+with, the worker records every command line handed to the shell and every path created: `Pkg.specObs` asks on every observation that
+a named tool's own non-zero status (not handled by its caller) ends in 130 whatever the shell made of it, that every command line is one
+simple command (no `|`, `;`, `&`, newline outside quotes), and that nothing new lies outside the configured directories.
+Address dimension: the Swift package publish under every spelling of `publish.repository` (`pkg.address_forms`: scp-like with one, two,
+several path segments, `~`, absolute server paths, port-like segments, other users, trailing slashes, missing / doubled / upper-case
+suffix; http(s) URLs with ports, user names, queries; other schemes; directories relative, absolute, through `..`), fresh and existing
+clone. Whether a spelling goes through git is the model's statement (`Pkg.classifyRepo`, the rule of the code; `classify_remote_iff`,
+`scpLike_any_depth`); invocation points the model lists but the run did not show fail as well, so "git absent or failing at any point
+=> 130" is asked of every address the model sends through git (`publish_remote_git_unavailable_130`, `publish_remote_fault_reported`),
+and a directory named like the address is caught by the `wrote-outside-configured-directories` clause.
+Outside the domain (`unquoted_bases`): `package.out` with a blank / `;` / `|` — the command line is joined unquoted; specification only,
+reported under the known finding `execute:unquoted-value`.
 """
 from __future__ import annotations
 
@@ -59,10 +77,26 @@ THEOREMS = [
     "Pydjinni.Sys.Pkg.session_dirs",
     "Pydjinni.Sys.Pkg.session_fault_reported",
     "Pydjinni.Sys.Pkg.executeCached_stale_moves_cwd",
+    "Pydjinni.Sys.Pkg.named_status_decides",
+    "Pydjinni.Sys.Pkg.Sh.simple_status",
+    "Pydjinni.Sys.Pkg.executeSh_simple",
+    "Pydjinni.Sys.Pkg.executeSh_pipe_hides_failure",
+    "Pydjinni.Sys.Pkg.executeSh_list_hides_failure",
+    "Pydjinni.Sys.Pkg.executeSh_and_keeps_failure",
+    "Pydjinni.Sys.Pkg.scpLike_any_depth",
+    "Pydjinni.Sys.Pkg.scpLike_single",
+    "Pydjinni.Sys.Pkg.classify_remote_iff",
+    "Pydjinni.Sys.Pkg.run_calls_prefix",
+    "Pydjinni.Sys.Pkg.publish_remote_starts_git",
+    "Pydjinni.Sys.Pkg.publish_remote_git_unavailable_130",
+    "Pydjinni.Sys.Pkg.publish_remote_fault_reported",
+    "Pydjinni.Sys.Pkg.publish_local_no_command",
 ]
 LEVEL = "proof"
-TRUSTED = ("external tools replaced by stub scripts that log their invocation, fail at the chosen point and otherwise leave the files the "
-           "model lists as the tool's effect (harness/pkg.py STUB); the Android wrapper script `gradlew` is the real one, `java` is the stub",)
+TRUSTED = ("external tools replaced by stub scripts that log their invocation and the status they exit with, fail at the chosen point and otherwise "
+           "leave the files the model lists as the tool's effect (harness/pkg.py STUB); the Android wrapper script `gradlew` is the real one, `java` "
+           "is the stub; helper programs of the environment are stubs that pass a wrapped command's status on or swallow their input and exit 0; "
+           "`shutil.which`, `os.system`, `subprocess.Popen(shell=True)` are wrapped by recorders that delegate unchanged",)
 
 ARCHS4 = ["x86", "x86_64", "armv7", "armv8"]
 SWIFT = {"macos": ["x86_64", "armv8"], "ios": ["armv8"], "ios_simulator": ["x86_64", "armv8"]}
@@ -161,6 +195,63 @@ def location_bases(ctx):
     return [{**b, "out": o, "cwd": c} for (o, c) in LOCATIONS for b in reps]
 
 
+def env_bases(ctx, r, helpers, derived):
+    """the environment dimension: the same pipelines with optional helper programs installed next to the named tools — formatters,
+    compiler caches, wrappers, launchers (`pkg.helper_candidates`: every program name the code under test mentions or looks up, plus
+    the common ones). One representative per kind of invocation point; every invocation point of each then fails in turn.
+    `helpers` = everything installed; thorough tier: also each name the code itself refers to alone, and random halves."""
+    reps = [
+        {"key": "aar", "platforms": [["android", ["x86", "armv8"]]], "phase": "package", "clean": True},
+        {"key": "nuget", "platforms": [["windows", ["x86_64"]]], "phase": "package", "pdb": True, "readme": True},
+        {"key": "swiftpackage", "platforms": [["macos", ["x86_64", "armv8"]], ["ios", ["armv8"]]], "phase": "package", "dsym": True, "clean": True},
+        {"key": "swiftpackage", "platforms": [["ios_simulator", ["x86_64"]]], "phase": "package", "stale": True},
+        {"key": "aar", "platforms": [["android", ["x86"]]], "phase": "publish", "publish_mode": "remote", "clean": True},
+        {"key": "nuget", "platforms": [["windows", ["x86_64"]]], "phase": "publish", "publish_mode": "remote", "pdb": True},
+        {"key": "swiftpackage", "platforms": [["ios", ["armv8"]]], "phase": "publish", "publish_mode": "git", "repo_exists": False, "clean": True},
+        {"key": "swiftpackage", "platforms": [["ios", ["armv8"]]], "phase": "publish", "publish_mode": "url", "repo_exists": True},
+    ]
+    out = [{**b, "helpers": list(helpers)} for b in reps]
+    some = sorted(r.sample(list(helpers), len(helpers) // 2))
+    out += [{**b, "helpers": some, "out": "else_abs", "cwd": "sub"} for b in reps[:4]]
+    if not ctx.quick:
+        out += [{**b, "helpers": some} for b in reps[4:]]
+        for h in derived:
+            out += [{**b, "helpers": [h]} for b in reps]
+    return out
+
+
+def corpus_bases():
+    """`corpus/c20.json`: configurations of the classes past blind spots were in (environment with helper programs, address spellings);
+    run first, each with every invocation point failing like any other base"""
+    f = common.VERIF / "corpus" / "c20.json"
+    if not f.exists():
+        return []
+    return [{k: v for k, v in e.items() if k != "what"} for e in json.loads(f.read_text())]
+
+
+def unquoted_bases(ctx):
+    """outside the model's domain: `package.out` holding a blank or a shell operator (`pkg.UNQUOTED_OUT`). `execute` joins the command line
+    unquoted, the shell then runs something else than the named tool with the listed arguments. Every target's package operation, every
+    invocation point the model lists failing in turn; only the specification is evaluated (reported under one key: a known finding)."""
+    reps = [{"key": "aar", "platforms": [["android", ["x86"]]], "phase": "package", "clean": True},
+            {"key": "nuget", "platforms": [["windows", ["x86_64"]]], "phase": "package", "pdb": True},
+            {"key": "swiftpackage", "platforms": [["ios", ["armv8"]]], "phase": "package"}]
+    return [{**b, "out": k} for k in pkg.UNQUOTED_OUT for b in reps]
+
+
+def address_bases(ctx):
+    """the address dimension of the Swift package publish: every spelling of `publish.repository` (`pkg.address_forms`: scp-like with
+    one, two, several path segments, `~`, absolute paths, ports, other user names, trailing slashes; http(s) URLs; other URL schemes;
+    local directories relative / absolute / through `..`), with a fresh and an existing clone, started in the project directory or below it.
+    Which of them go through git is the model's statement (`Pkg.classifyRepo`); every invocation point the model or the run shows then fails."""
+    out = []
+    for i, a in enumerate(pkg.address_forms()):
+        for repo in ((bool(i % 2),) if ctx.quick else (False, True)):
+            out.append({"key": "swiftpackage", "platforms": [["ios", ["armv8"]]], "phase": "publish", "address": a, "repo_exists": repo,
+                        "clean": bool(i % 3), "cwd": "sub" if i % 4 == 3 else "proj"})
+    return out
+
+
 def fault_cases(base, calls, removed_gradlew=False):
     """every invocation point of the succeeding run failing in turn, both ways"""
     out = []
@@ -207,7 +298,7 @@ def follow_ups(results, seen, max_size=3):
     out = []
     for c, o, m in results:
         f = c.get("fault")
-        if not f or f["kind"] != "nonzero" or f.get("via_java") or f.get("then_missing") is not None or o.get("prepare_failed"):
+        if not f or f["kind"] != "nonzero" or f.get("via_java") or f.get("then_missing") is not None or o.get("prepare_failed") or pkg.outside_dom(c):
             continue
         idx = fault_indices(f)
         calls = o.get("calls", [])
@@ -249,11 +340,11 @@ def sequence_cases(ctx, r, ok_runs, single):
     of its own, non-zero / missing), so every kind of `execute` call is met after the process has been somewhere else."""
     def clean(c):
         return {k: v for k, v in c.items() if k not in ("id", "history", "timeout")}
-    oks = [clean(c) for c, o, m in ok_runs if not c.get("fault") and o.get("code") is None and not o.get("prepare_failed")]
+    oks = [clean(c) for c, o, m in ok_runs if not c.get("fault") and o.get("code") is None and not o.get("prepare_failed") and not pkg.outside_dom(c)]
     classes: dict = {}
     for c, o, m in single:
         f = c["fault"]
-        if o.get("prepare_failed") or f.get("via_java"):
+        if o.get("prepare_failed") or f.get("via_java") or pkg.outside_dom(c):
             continue
         classes.setdefault(json.dumps([c["key"], c["phase"], f["tool"], f["sig"], f["kind"]]), []).append(clean(c))
     if not oks or not classes:
@@ -331,13 +422,21 @@ def compare(case, obs, m):
     return diffs
 
 
-def spec_request(case, obs):
+def spec_request(case, obs, model=None):
     f = case.get("fault")
+    calls = obs.get("calls", [])
     o = {"code": obs.get("code"), "cwdBefore": obs.get("cwdBefore") or pkg.cwd_components(case), "cwdAfter": obs.get("cwdAfter"),
          "outBefore": obs.get("outBefore", []), "outAfter": obs.get("outAfter", []),
-         "ranIn": [c["ranIn"] for c in obs.get("calls", [])],
+         "ranIn": [c["ranIn"] for c in calls],
          # the configured output base holds the build / package directories the tools are started in; it need not lie below the caller
-         "workRoots": [pkg.out_base(case)]}
+         "workRoots": [pkg.out_base(case)],
+         # the status every named tool recorded for itself; which of the invocations is the probe its caller handles
+         "exits": [c.get("exit", 0) for c in calls], "handledAt": [is_probe(c) for c in calls],
+         "cmdlines": obs.get("cmdlines", []),
+         # what is new after the operation, and where the configuration sends it: the output base, and for a publish that the model
+         # classifies as "into a local directory" that directory
+         "newPaths": obs.get("newPaths", []),
+         "allowed": [pkg.out_base(case)] + ([model["dest"]] if model and model.get("dest") is not None and case["phase"] == "publish" else [])}
     if f and f.get("set"):
         return {"op": "c20.spec", "key": case["key"], "phase": case["phase"], "fault": None, "maxLogged": 0,
                 "faults": fault_points(case, obs), "obs": o}
@@ -386,7 +485,8 @@ def judge(ctx, cases, obs_l, templates, breaks):
             o = {"code": o.get("code"), "exc": o.get("exc"), "cwdBefore": pkg.cwd_components(c), "cwdAfter": o.get("cwdAfter"), "outBefore": [], "outAfter": [],
                  "calls": [], "files": [], "prepare_failed": True}
         usable.append(o)
-    specs = ctx.driver.batch([spec_request(c if not o.get("prepare_failed") else {**c, "fault": None, "phase": "prepare"}, o) for c, o in zip(cases, usable)])
+    specs = ctx.driver.batch([spec_request(c if not o.get("prepare_failed") else {**c, "fault": None, "phase": "prepare"}, o, m)
+                              for c, o, m in zip(cases, usable, models)])
     out = []
     for c, o, m, s in zip(cases, usable, models, specs):
         if "error" in m or "error" in s:
@@ -394,7 +494,7 @@ def judge(ctx, cases, obs_l, templates, breaks):
         f = c.get("fault")
         ctx.stat(f"location_{pkg.out_kind(c)}_{c.get('cwd', 'proj')}" + ("_fault" if f else ""))
         key = json.dumps([c["key"], c["phase"], c.get("publish_mode"), [len(a) for _, a in c["platforms"]], bool(c.get("dsym")), bool(c.get("pdb")),
-                          pkg.out_kind(c), c.get("cwd", "proj"),
+                          pkg.out_kind(c), c.get("cwd", "proj"), len(c.get("helpers") or ()), c.get("address"), bool(c.get("repo_exists")),
                           (f["tool"], f["sig"], f["kind"]) if f else None,
                           [p[1:] for p in f["points"]] if f and f.get("set") else None, history_shape(c), bool(c.get("fresh_api"))])
         ctx.count(key=key, nontrivial=f is not None, sample={"case": describe(c), "impl": {"code": o.get("code"), "cwdAfter": o.get("cwdAfter"), "calls": len(o.get("calls", []))}})
@@ -404,8 +504,28 @@ def judge(ctx, cases, obs_l, templates, breaks):
         if f and f.get("set") and s.get("effective"):
             ctx.stat("set_effective_" + ("handled-only" if s["effective"]["handled"] else ("first" if s["effective"]["k"] == f["k"] else "later")))
         ctx.stat("impl_code_" + str(o.get("code")))
+        if c.get("helpers"):
+            ctx.stat("environment_helpers_" + ("fault" if f else "ok"))
+            for h in o.get("helperCalls", []):
+                ctx.stat("helper_ran_" + h[0])
+        if c.get("address"):
+            ctx.stat("address_" + ("git" if m.get("remote") else "directory") + ("_fault" if f else "_ok"))
+        for name in o.get("whichAsked", []):
+            if "/" not in name and name not in pkg.TOOLS:
+                ctx.stat("which_asked_" + name)
         if f:
             ctx.stat("fault_tool_" + f["tool"])
+        if pkg.outside_dom(c):
+            # a value with a blank / shell operator is spliced unquoted into the command line: outside the model's domain (the status the
+            # shell returns is not the named tool's: `Pkg.executeSh_simple` needs a simple command). Specification only, one key.
+            ctx.stat("outside_domain_" + ("spec_fails" if not s["holds"] else "spec_holds"))
+            if not s["holds"]:
+                for clause in s["failed"]:
+                    ctx.stat("outside_domain_clause_" + clause)
+                ctx.report("execute:unquoted-value", WHAT["unquoted-value"],
+                           {"input": describe(c), "impl": strip(o), "failed_clauses": s["failed"], "model": {k: m[k] for k in ("res", "code", "cwd")}})
+            out.append((c, o, m))
+            continue
         d = compare(c, o, m) if not o.get("prepare_failed") else ["the succeeding package run before publish failed"]
         if d:
             breaks.append({"case": describe(c), "diffs": d, "impl": strip(o), "model": {k: m[k] for k in ("res", "code", "cwd", "calls")}})
@@ -430,11 +550,21 @@ WHAT = {
     "output-changed": "a failing build/publish step changed the package output directory",
     "unexpected-failure": "the operation failed although every external command succeeded",
     "no-artifact-on-success": "packaging succeeded without a finished artifact in the output directory",
+    "unquoted-value": "a path with a blank or a shell operator is spliced unquoted into the command line: the shell runs something else, the "
+                      "status it returns is not the named tool's (a failing tool can go unreported, a succeeding run can fail)",
+    "named-command-status-lost": "a named external command recorded a non-zero exit of its own, yet the operation did not end with code 130 "
+                                 "(its status was replaced on the way: pipeline, wrapper, formatter, `|| …`)",
+    "shell-operator-in-command": "a command line handed to the shell holds a control operator outside quotes: its status is not the named command's",
+    "wrote-outside-configured-directories": "the operation left a file or directory outside the configured output base (and, for a publish into a "
+                                            "local directory, outside that directory)",
 }
 
 
 def strip(o):
-    return {k: v for k, v in o.items() if k not in ("files",)}
+    d = {k: v for k, v in o.items() if k not in ("files",)}
+    if len(d.get("newPaths", [])) > 12:
+        d["newPaths"] = d["newPaths"][:12] + [["…", str(len(d["newPaths"]) - 12), "more"]]
+    return d
 
 
 def run(ctx):
@@ -445,29 +575,60 @@ def run(ctx):
                             "point failing as non-zero exit and as missing command; then sets of faults: every run that went on after its last fault (handled "
                             "probe) extended by every later invocation point (non-zero / tools gone), recursively up to three faults; thorough: all pairs; "
                             "sessions: 2-3 operations in one process with a change of directory between them (success/failure patterns, same or fresh API "
-                            "object, every invocation-point class as a later step); "
+                            "object, every invocation-point class as a later step); environment: helper programs (named by the code or common) "
+                            "installed or not; address: every spelling of the Swift package repository x fresh / existing clone; outside the domain: "
+                            "unquoted blanks / shell operators in package.out; "
                             "distinct = (target, phase, publish mode, architectures per platform, dSYM, pdb, out kind, cwd kind, failing tool + arguments, fault kind, "
+                            "number of helper programs installed, repository address, clone exists, "
                             "tools + arguments of the fault set, what the process did before); non-trivial = a fault is injected")
     ctx.assumptions += [
         "a tool that fails leaves no output file (stubs write only on success); copytree/copy are atomic",
         "publish is judged from the state a succeeding package run leaves behind (a separate API object, as a separate CLI call would have)",
         "`gradlew` cannot be absent during `package` (the operation writes it itself); there the 'missing' fault is a missing `java`",
+        "a helper program (formatter, cache, wrapper) itself never fails and never writes a file",
+        "pydantic reads a repository address as HttpUrl iff it is http(s):// + authority (the address forms fed are well-formed URLs); "
+        "everything else is a pathlib path (Pkg.classifyRepo)",
+        "model domain: every command line is one simple command (Pkg.plainCommand) and no spliced value holds a blank; values outside it "
+        "are run against the specification only (finding execute:unquoted-value)",
     ]
     r = random.Random(f"{ctx.seed}/c20")
     templates = {k: pkg.template_files(common.SRC, k) for k in pkg.ALL_PLATFORMS}
     breaks = []
-    bases = package_bases(ctx, r) + publish_bases(ctx) + location_bases(ctx)
+    bases = corpus_bases() + package_bases(ctx, r) + publish_bases(ctx) + location_bases(ctx) + address_bases(ctx) + unquoted_bases(ctx)
     ok_runs = evaluate(ctx, [dict(b) for b in bases], templates, breaks)
+    # the environment dimension: helper programs named by the code (statically: `pkg.helper_candidates`; dynamically: every name the
+    # runs so far looked up with `shutil.which` that is not a named tool) plus the common ones, installed next to the named tools
+    helpers, looked_up = pkg.helper_candidates(common.SRC)
+    asked = sorted({n for _, o, _ in ok_runs for n in o.get("whichAsked", []) if "/" not in n and n not in pkg.TOOLS and n not in pkg.COREUTILS})
+    helpers = sorted(set(helpers) | set(asked))
+    looked_up = sorted(set(looked_up) | set(asked))
+    env = env_bases(ctx, r, helpers, looked_up)
+    ok_runs += evaluate(ctx, [dict(b) for b in env], templates, breaks)
+    bases += env
+    ctx.stats["helper_programs"] = len(helpers)
+    ctx.stats["helper_programs_looked_up_by_the_code"] = looked_up
     faults = []
     for c, o, m in ok_runs:
         if c.get("fault"):
             continue  # already a fault case of its own
         base = {k: v for k, v in c.items() if k != "id"}
-        if o.get("code") is None and not o.get("prepare_failed"):
+        mcalls = [{"tool": x["tool"], "sig": x["sig"]} for x in m["calls"]]
+        if o.get("code") is None and not o.get("prepare_failed") and not pkg.outside_dom(c):
             calls = o["calls"]
         else:
-            calls = [{"tool": x["tool"], "sig": x["sig"]} for x in m["calls"]]  # the succeeding run itself failed (reported above)
+            calls = mcalls  # the succeeding run itself failed (reported above) / what the shell ran is not what was named
         fc = fault_cases(base, calls)
+        if ctx.quick and c.get("address") and len(calls) > 3:
+            # quick tier: per address the first invocation point and a rotating half of the others, both ways (thorough: all of them)
+            rot = sum(map(ord, c["address"])) + ctx.seed
+            fc = [x for x in fc if x["fault"]["k"] == 0 or (x["fault"]["k"] + rot) % 2 == 0]
+        if [(x["tool"], x["sig"]) for x in calls] != [(x["tool"], x["sig"]) for x in mcalls]:
+            # the run did not show the invocation points the model lists (e.g. it never started the tool at all): those fail as well —
+            # the specification then asks for code 130 at a point the operation has to pass
+            have = {(x["fault"]["k"], x["fault"]["kind"]) for x in fc}
+            extra = [x for x in fault_cases(base, mcalls) if (x["fault"]["k"], x["fault"]["kind"]) not in have]
+            ctx.stats["fault_points_from_model_only"] = ctx.stats.get("fault_points_from_model_only", 0) + len(extra)
+            fc += extra
         faults += fc
     single = evaluate(ctx, faults, templates, breaks)
     # sets of faults: extend every run that went on after its last injected fault, to a fixed point (at most three faults)
@@ -475,7 +636,7 @@ def run(ctx):
     frontier = follow_ups(single, seen)
     if not ctx.quick:
         for c, o, m in ok_runs:
-            if not c.get("fault") and o.get("code") is None and not o.get("prepare_failed"):
+            if not c.get("fault") and o.get("code") is None and not o.get("prepare_failed") and not pkg.outside_dom(c):
                 frontier += pair_cases({k: v for k, v in c.items() if k != "id"}, o["calls"], seen)
     while frontier:
         n_sets += len(frontier)
@@ -512,6 +673,8 @@ def replay(ctx, body):
     if o.get("prepare_failed"):
         print(json.dumps(o, indent=1))
         return False
-    s = ctx.driver.one(spec_request(case, o))
+    templates = {k: pkg.template_files(common.SRC, k) for k in pkg.ALL_PLATFORMS}
+    m = ctx.driver.one(pkg.model_request(case, templates[case["key"]]))
+    s = ctx.driver.one(spec_request(case, o, m))
     print(json.dumps({"impl": strip(o), "spec": s}, indent=1)[:3000])
     return bool(s.get("holds"))
